@@ -69,7 +69,9 @@ struct Mv
     Mv() = default;
     explicit Mv(std::int32_t x) : v(x) {}
     Mv(const Mv& o) : v(o.v) {}
-    Mv(Mv&& o) noexcept : v(o.v) { ++o.moved; }
+    // deliberately NOT noexcept (Handle(Raw&&) below is): whether an rvalue range is moved from must
+    // not depend on the exception specification of the item's move construction (seeded change C15h)
+    Mv(Mv&& o) : v(o.v) { ++o.moved; }
     Mv& operator=(const Mv& o)
     {
         v = o.v;
